@@ -38,6 +38,9 @@ def correspond(ctx):
     for k in FORMATS:
         K.c03_flow(ctx, ADAPTERS[k], ctx.n(40, 400))
     _fchk.c03_flow(ctx, ctx.n(60, 500))
+    from ._cube import CUBE
+
+    K.c03_flow(ctx, CUBE, ctx.n(50, 400))
     _fchk.corr_shuffles(ctx)
 
 
